@@ -71,6 +71,10 @@ func semRun(c *Ctx, flavour string, n int, prop string) {
 			src = gen.TryProgram(r)
 		case "tailcall":
 			src = gen.TailCallProgram(r)
+		case "callbind":
+			src = gen.CallBindProgram(i)
+		case "closures":
+			src = gen.ClosureChainProgram(r)
 		default:
 			src = gen.Program(r, semProgOpts(r, flavour))
 		}
@@ -93,7 +97,7 @@ func semRun(c *Ctx, flavour string, n int, prop string) {
 			c.Count("skipped:map-order")
 			continue
 		}
-		if strings.Contains(implNo, "StackOverflow") || strings.HasPrefix(implNo, "out=panic") {
+		if strings.Contains(implNo, "StackOverflow") || (strings.HasPrefix(implNo, "out=panic") && strings.Contains(implNo, "with length 2048")) {
 			// value-stack exhaustion is a VM limit the reference semantics does not have
 			c.Count("skipped:vm-limit")
 			continue
@@ -175,12 +179,14 @@ func init() {
 		Name: "sem",
 		Skip: vmSkip,
 		Run: func(c *Ctx) {
-			c.Rule("random scripts (gen.Program; flavours: general, try-heavy, call-heavy) run by the implementation (compiler+VM, optimizer off) vs the reference semantics Spec/Sem on the same AST: outcome and final globals (side-effect log); also optimizer on at limits {default,1,3} vs off (C01); distinct = distinct (outcome class, outcome hash)")
+			c.Rule("random scripts (gen.Program; flavours: general, try-heavy, call-heavy, try enumeration, self tail calls, the complete call-binding enumeration (params 0..3 x variadic x explicit args 0..4 x spread none/0..4 x 5 call positions), chains of sibling closures) run by the implementation (compiler+VM, optimizer off) vs the reference semantics Spec/Sem on the same AST: outcome and final globals (side-effect log); also optimizer on at limits {default,1,3} vs off (C01); distinct = distinct (outcome class, outcome hash)")
 			semRun(c, "general", 700*c.Scale, "C02")
 			semRun(c, "try", 500*c.Scale, "C03")
 			semRun(c, "calls", 300*c.Scale, "C02")
 			semRun(c, "tryenum", 1500*c.Scale, "C03")
 			semRun(c, "tailcall", 300*c.Scale, "C02")
+			semRun(c, "callbind", gen.NumCallBindPrograms, "C02")
+			semRun(c, "closures", 200*c.Scale, "C02")
 		},
 	})
 }
